@@ -401,7 +401,10 @@ def check_freeze(repo: Repo, rep: Report, nx):
     if not ok:
         rep.finding("B5.freeze", repo.construct(FUNCTION, "frozen"), "stub-does-not-raise", "frozen() does not raise on every path")
     isf = repo.get(FUNCTION, "is_frozen")
-    ok = flag and any(isinstance(x, ast.Attribute) and x.attr == "frozen" for x in ast.walk(isf))
+    reads_flag = any(isinstance(x, ast.Attribute) and x.attr == "frozen" for x in ast.walk(isf)) or any(
+        isinstance(x, ast.Call) and isinstance(x.func, ast.Name) and x.func.id in ("getattr", "hasattr") and len(x.args) >= 2
+        and isinstance(x.args[1], ast.Constant) and x.args[1].value == "frozen" for x in ast.walk(isf))
+    ok = flag and reads_flag
     rep.ob("B5.freeze", construct, "freeze sets G.frozen = True and is_frozen reads it", ok=ok)
     n += 2
     if not ok:
